@@ -149,10 +149,15 @@ def generate_dispatch(ov, arganal):
     calls = []
     if spo or po:
         req = len(spr + pr)
+        npos = len(spr + spo + pr + po)
+        # Keyword arguments must be looked up and forwarded even when some
+        # optional positional arguments are omitted.
+        kwlookup = lookup[npos:]
+        kwposargs = posargs[npos + 1 :]
         for i, arg in enumerate(spo + po):
             call = call_template.format(
-                lookup=join(lookup[: req + i], trail=True),
-                posargs=join(posargs[: req + i + 1]),
+                lookup=join(lookup[: req + i] + kwlookup, trail=True),
+                posargs=join(posargs[: req + i + 1] + kwposargs),
                 mvar=mv,
             )
             call = textwrap.indent(call, "        ")
